@@ -29,6 +29,9 @@ type c19Step struct {
 	// SameType: parse: the input is a Go value of the destination's own type, populated from Input (the typed record):
 	// its pointers, slices and nested structs have exactly the types of the destination's
 	SameType bool `json:"sameType,omitempty"`
+	// Fmt: this execution passes WithIssueFormatter stamping this marker ("" = none): the options of one execution
+	// are not kept by the schema
+	Fmt string `json:"fmt,omitempty"`
 }
 
 type c19Case struct {
@@ -102,7 +105,7 @@ func propC19(c c19Case) hh.Verdict {
 	risky := model.RiskyPosts(c.Root)
 	defaultApplied, nestedInput, sameType := false, false, false
 	for i, st := range c.Steps {
-		cs := model.Case{Root: c.Root, Input: st.Input, Exec: model.Exec{Mode: st.Mode}}
+		cs := model.Case{Root: c.Root, Input: st.Input, Exec: model.Exec{Mode: st.Mode, Formatter: st.Fmt}}
 		dest := newDest(model.RetaggedStruct(typ, nil, st.Rot), cs, false)
 		var in any
 		var inSnap string
@@ -163,7 +166,12 @@ func propC19(c c19Case) hh.Verdict {
 			// with issues, which PostTransforms ran depends on the visit order (documented global gating)
 			obs.dest = model.CanonJSON(dest.Elem())
 		}
-		key := st.Mode + "|" + st.Wrap + "|" + model.JSON(st.Input)
+		for _, is := range res.All() {
+			if (is.Message == "FMT-1" || is.Message == "FMT-2") && is.Message != st.Fmt {
+				return hh.Fail("step %d: issue %s at %q carries the message %q of ANOTHER execution's formatter (this execution's: %q)", i, is.Code, is.Path, is.Message, st.Fmt)
+			}
+		}
+		key := st.Mode + "|" + st.Wrap + "|" + st.Fmt + "|" + model.JSON(st.Input)
 		if st.SameType {
 			// pointer-typed data reaches the coercers as pointers (%v of an address): the result is not a function of the record
 		} else if !res.NoIssues() && risky {
@@ -238,12 +246,16 @@ func genC19(rt *rapid.T, cfg model.GenCfg) c19Case {
 			if root.Kind == model.KStruct && rapid.Bool().Draw(rt, "rerot") {
 				rep.Rot = rapid.IntRange(0, 3).Draw(rt, "rot2") // the same execution into another destination type
 			}
+			if rapid.IntRange(0, 2).Draw(rt, "refmt") == 0 {
+				rep.Fmt = rapid.SampledFrom([]string{"", "FMT-1", "FMT-2"}).Draw(rt, "fmt2") // the same execution under another formatter
+			}
 			c.Steps = append(c.Steps, rep)
 			continue
 		}
 		mode := rapid.SampledFrom([]string{"parse", "validate"}).Draw(rt, "mode")
 		typed := g.GenTyped(root)
-		st := c19Step{Mode: mode, Input: typed, Collect: rapid.SampledFrom([]string{"", "", "each", "all", "sanitize"}).Draw(rt, "collect")}
+		st := c19Step{Mode: mode, Input: typed, Collect: rapid.SampledFrom([]string{"", "", "each", "all", "sanitize"}).Draw(rt, "collect"),
+			Fmt: rapid.SampledFrom([]string{"", "", "", "FMT-1", "FMT-2"}).Draw(rt, "fmt")}
 		if root.Kind == model.KStruct && rapid.IntRange(0, 2).Draw(rt, "rotate") == 0 {
 			st.Rot = rapid.IntRange(1, 3).Draw(rt, "rot")
 		}
@@ -322,7 +334,7 @@ func propC19FE(c c14Case) hh.Verdict {
 
 func TestC19(t *testing.T) {
 	h := hh.Start(t, "C19",
-		"cases = one schema (slice and primitive defaults, catch values, OneOf lists, Contains values, destination-mutating PostTransforms) and a history of 2-6 executions in both modes, some repeated verbatim; inputs are nested maps / slices, optionally behind one or two pointers, requests handed to zhttp (form bodies and query strings with list parameters, parsed three times each), or Go values of the destination's own type (same pointer, slice and struct types as the destination); non-trivial = a slice default exists and an execution follows one whose destination was scribbled over, or the input holds nested maps/slices; distinct = FNV-1a of the case JSON",
+		"cases = one schema (slice and primitive defaults, catch values, OneOf lists, Contains values, destination-mutating PostTransforms) and a history of 2-6 executions in both modes, some repeated verbatim, some with an execution-level formatter of their own; inputs are nested maps / slices, optionally behind one or two pointers, requests handed to zhttp (form bodies and query strings with list parameters, parsed three times each), or Go values of the destination's own type (same pointer, slice and struct types as the destination); non-trivial = a slice default exists and an execution follows one whose destination was scribbled over, or the input holds nested maps/slices; distinct = FNV-1a of the case JSON",
 		"invariants after every step: deep snapshot of the input unchanged; deep snapshots of every reference-typed value handed to the schema at construction unchanged, also after the harness overwrites every part of the returned destination (incl. spare slice capacity); a verbatim repeated execution gives the same issues and destination as the first time; Validate leaves the value unchanged when the schema has no Default, Catch or PostTransform",
 		"schema-owned values are observed through the references the harness keeps (slice defaults, OneOf lists); value-typed defaults cannot be aliased and are covered by the repeated-execution clause")
 	defer h.Finish()
